@@ -239,9 +239,9 @@ def run_task(prop, check: Check, check_index, tier, seed, shard, nshards, findin
     return out
 
 
-def replay_case(prop, check: Check, case, findings):
+def replay_case(prop, check: Check, case, findings, shard=0):
     """run the oracle on a stored case, bypassing Hypothesis.  returns (ok, message, ctx)"""
-    ctx = Ctx(prop, check.name, 'quick', 0, 0, findings)
+    ctx = Ctx(prop, check.name, 'quick', 0, shard, findings)
     ctx.replaying = True
     try:
         check.oracle(case, ctx)
